@@ -342,8 +342,9 @@ def _fault_cases(draw, meta, tier="quick"):
 
 def _hclause(name):
     heavy = name in ("ConstraintKMeans", "ApproximateNMFPredictor", "DecisionTreeLogisticRegression", "ClassifierAfterKMeans", "PiecewiseClassifier", "PiecewiseRegressor")
-    return Clause("history:" + name, check_history, strategy=lambda tier, n=name: _history_cases(n, tier), quick=50 if heavy else 80,
-                  thorough=600 if heavy else 1200, quick_shards=1, thorough_shards=2, doc="histories of good / bad fits and output calls on %s" % name)
+    return Clause("history:" + name, check_history, strategy=lambda tier, n=name: _history_cases(n, tier), quick=(160 if name == "ConstraintKMeans" else 50) if heavy else 80,
+                  quick_shards=4 if name == "ConstraintKMeans" else 1,
+                  thorough=600 if heavy else 1200, thorough_shards=2, doc="histories of good / bad fits and output calls on %s" % name)
 
 
 def _fclause(meta):
